@@ -2,7 +2,7 @@
 //! over every {value, randomness} object and every leaf pair of every explored serialized proof).
 #![allow(non_snake_case)]
 use crate::c14::holder;
-use crate::c15::honest;
+use crate::c15::{honest, honest_with_key};
 use crate::common::*;
 use mccore::{int_leaf_paths, json_get, par_for, path_class, subsets, O};
 use rug::{Complete, Integer};
@@ -39,6 +39,8 @@ where CL03<CS>: Scheme<PubKey = CL03PublicKey, PrivKey = CL03SecretKey>, CS::Has
     for n in 2..=maxn { for u in subsets(n) { if u.len() >= 2 { let mut r = u.clone(); r.reverse(); specs.push(("signature-proof", n, r.clone(), false, "")); specs.push(("issuance", n, r, false, "")); } } }
     // many attributes: position 7 of 8 and position 65 of 66 (a fixed-width index set, a window of blindings, ... shows only there)
     if w.bases.0.len() >= 66 { specs.push(("signature-proof", 8, vec![3], false, "")); specs.push(("signature-proof", 8, vec![0, 7], false, "")); specs.push(("issuance", 8, vec![0, 7], false, "")); specs.push(("signature-proof", 66, vec![1, 65], false, "")); specs.push(("issuance", 66, vec![1, 65], false, "")); }
+    // a verifier commitment key with more generators than the credential has attributes
+    for (n, u, var) in [(1usize, vec![0usize], "longkey2"), (2, vec![1], "longkey1"), (2, vec![], "longkey1")] { specs.push(("signature-proof", n, u, false, var)); }
     if maxn >= 3 { specs.push(("signature-proof", 3, vec![2, 0], false, "")); specs.push(("signature-proof", 3, vec![1, 2, 0], false, "")); specs.push(("issuance", 3, vec![2, 0], false, "")); }
     let out = std::sync::Mutex::new(Vec::new());
     par_for(&specs, |_, (kind, n, u, trusted, var)| {
@@ -53,7 +55,7 @@ where CL03<CS>: Scheme<PubKey = CL03PublicKey, PrivKey = CL03SecretKey>, CS::Has
                 o => { if u.windows(2).all(|w| w[0] < w[1]) { env.machinery(&format!("holder side failed for {}: {}", id, o.describe())); } else { env.ctx.note(&format!("{}: prover refuses the unordered hidden list ({})", id, o.kind())); } }
             }
         } else {
-            match honest::<CS>(w, *n, &m, u) {
+            match if var.starts_with("longkey") { honest_with_key::<CS>(w, *n, &m, u, if *var == "longkey1" { 1 } else { 2 }) } else { honest::<CS>(w, *n, &m, u) } {
                 O::Ok((sig, p)) => { let sj = to_json(&sig); let mut secrets: Vec<(String, Integer)> = u.iter().map(|&i| (format!("hidden m_{}", i), m[i].clone())).collect();
                     for k in ["e", "s", "v"] { secrets.push((format!("signature {}", k), leaf_int(&sj["CL03"][k]).unwrap())); }
                     out.lock().unwrap().push(Item { id, kind, n: *n, hidden: u.clone(), proof: to_json(&p), m: m.clone(), secrets, public_extra: vec![] }); }
@@ -124,6 +126,22 @@ where CL03<CS>: Scheme<PubKey = CL03PublicKey, PrivKey = CL03SecretKey>, CS::Has
             }
             env.ctx.class(if shaped { "value/randomness object" } else { "leaf pair" });
             env.ctx.trace();
+        }
+        // two commitment values of one sub-proof multiplied / divided: must not give the signature component v (nor its inverse)
+        if let Some(vs) = &v_sig {
+            let nn = &w.cpk.N;
+            let vinv = vs.clone().invert(nn).unwrap_or_default();
+            let elems: Vec<&Vec<String>> = leaves.iter().filter(|p| { let x = val(p); x > 0 && x < *nn && x.significant_bits() + 64 >= nn.significant_bits() }).collect();
+            for a in &elems { for b in &elems {
+                if a >= b || a.len() != b.len() || a[..a.len() - 1] != b[..b.len() - 1] { continue; }
+                env.ctx.step();
+                let (x, y) = (val(a), val(b));
+                let yi = match y.clone().invert(nn) { Ok(i) => i, Err(_) => continue };
+                let xi = match x.clone().invert(nn) { Ok(i) => i, Err(_) => continue };
+                for (how, q) in [("a / b", (x.clone() * &yi) % nn), ("b / a", (y.clone() * &xi) % nn), ("a * b", (x.clone() * &y) % nn)] {
+                    if q == *vs || q == vinv { env.ctx.violation(&format!("C17:recovers-v:two-values:/{}", path_class(a)), &format!("{} of a = /{} and b = /{} is the signature component v{}: v follows from the proof alone", how, a.join("/"), b.join("/"), if q == vinv { " (inverted)" } else { "" }), env.case(&it.id, json!({"base": det0, "leaves": [a.join("/"), b.join("/")], "how": how}))); }
+                }
+            } }
         }
         // two hidden attributes blinded by the same value: (s_i - s_j) = c * (m_i - m_j) exactly, for a challenge c carried in the proof
         // challenges: carried in the proof or recomputable by the recipient from public data
